@@ -62,17 +62,6 @@ int qp_parse(const char *text, qprog *p)
 			if (p->gate && op_is_sync(o->op)) return -1;
 		}
 	}
-	if (p->hold) {
-		// only one thread may issue synchronous ops (their bodies wait for the OTHER threads' submissions), and those other
-		// threads must never wait themselves
-		int syncers = 0;
-		for (int t = 0; t < p->nthr; t++) {
-			int has = 0;
-			for (int k = 0; k < p->nops[t]; k++) if (op_is_sync(p->ops[t][k].op)) has = 1;
-			syncers += has;
-		}
-		if (syncers > 1) return -1;
-	}
 	return p->nthr ? 0 : -1;
 }
 
@@ -86,7 +75,7 @@ static int others_submitted(void *tp)
 static void body(int id)
 {
 	int t = (id % 1000 - 1) / 16, k = (id % 1000 - 1) % 16;
-	if (g_p->hold && id < 1000 && t < g_p->nthr && k < g_p->nops[t] && op_is_sync(g_p->ops[t][k].op) && g_p->ops[t][k].op != 'A' && g_p->ops[t][k].op != '3') {
+	if (g_p->hold && id < 1000 && t == 0 && k < g_p->nops[t] && op_is_sync(g_p->ops[t][k].op) && g_p->ops[t][k].op != 'A' && g_p->ops[t][k].op != '3') {
 		// the synchronously executed item stays in flight until every other client thread has returned from all of its
 		// submissions: the overlap "reader inside, barrier arriving" costs no preemption
 		vx_ev(EV_START, id, 0);
